@@ -517,7 +517,19 @@ func (vc *VC) tyofAssume(p Term, elem types.Type) Term {
 	}
 	// identical underlying struct types share a tag (pointer conversions between them are legal)
 	id := IntLit(int64(vc.eng.typeID(elem.Underlying())))
-	return Implies(Not(Eq(p, NilP)), Eq(App(SInt, "tyof", Root(p), PathOf(p)), id))
+	// ... and a struct pointer never points into an object that was allocated as a scalar cell (a variable of
+	// integer / pointer / slice / ... type, or an array of such elements)
+	return Implies(Not(Eq(p, NilP)), And(Eq(App(SInt, "tyof", Root(p), PathOf(p)), id), Not(App(SBool, "scalarcell", Root(p)))))
+}
+
+func holdsStruct(t types.Type) bool {
+	switch u := t.Underlying().(type) {
+	case *types.Struct:
+		return true
+	case *types.Array:
+		return holdsStruct(u.Elem())
+	}
+	return false
 }
 
 // allocObj returns a fresh root pointer and zero-initialises the object's rows.
@@ -528,6 +540,9 @@ func (vc *VC) allocObj(st *State, t types.Type, hint string) Term {
 	vc.zeroRows(st, id, t)
 	// gated by reachability: allocation ids coincide on mutually exclusive paths
 	vc.q.Assert(Implies(st.reach, vc.tyofAssume(p, t)))
+	if !holdsStruct(t) {
+		vc.q.Assert(Implies(st.reach, App(SBool, "scalarcell", id)))
+	}
 	return p
 }
 
